@@ -37,6 +37,11 @@ func runC14(c *Ctx) {
 	r14_3(c, "R14.3")
 	r14_4(c, "R14.4")
 	r15_2(c, "R14.5")
+	if c.Unix() {
+		// chmod follows symlinks: a link recreated in the destination may point
+		// outside it, so the mode is never applied to links (shared with C13)
+		r13_2(c, "R14.6")
+	}
 }
 
 func runC15(c *Ctx) {
@@ -138,9 +143,34 @@ func r13_2(c *Ctx, rule string) {
 	chown := c.checkedCallPred("copy.Chown")
 	c.ObPrecedes(rule, base+"/chown-before-chmod", fn, nil, chown, c.callPred("os.Chmod"), "a checked Chown", "os.Chmod")
 	c.ObPrecedes(rule, base+"/chown-before-times", fn, nil, chown, c.callPred("copy.(*copier).copyFileTimestamp"), "a checked Chown", "copyFileTimestamp")
-	sym := modeBitTests(c, fn, x, modeSymlink)
+	// the symlink test that keeps chmod away from links must look at the
+	// SOURCE mode: the computed target mode loses the type bits when an octal
+	// option is given
+	var sym []string
+	eng.Instrs(fn, func(in ssa.Instruction) {
+		v, ok := in.(ssa.Value)
+		if !ok {
+			return
+		}
+		operand, mask, setWhenTrue, isBT := eng.BitTest(v)
+		if !isBT || mask != modeSymlink {
+			return
+		}
+		mcall, isCall := eng.Canon(operand).(*ssa.Call)
+		if !isCall || c.P.CalleeName(mcall) != "(io/fs.FileInfo).Mode" {
+			return
+		}
+		if _, isP := eng.Canon(mcall.Call.Value).(*ssa.Parameter); !isP {
+			return
+		}
+		key := x.KeyAtEntry(v)
+		if !setWhenTrue {
+			key = "!" + key
+		}
+		sym = append(sym, key)
+	})
 	if len(sym) == 0 {
-		c.R.Fail(rule, base+"/chmod-not-for-symlinks", c.P.Pos(fn.Pos()), "copyFileInfo has no symlink test: chmod on a symlink changes the mode of its target")
+		c.R.Fail(rule, base+"/chmod-not-for-symlinks", c.P.Pos(fn.Pos()), "copyFileInfo has no symlink test on the source's own mode (fi.Mode()): chmod on a symlink changes the mode of its target")
 	} else {
 		as := map[string]bool{}
 		no := map[string]bool{}
@@ -231,29 +261,23 @@ func r13_2(c *Ctx, rule string) {
 				return
 			}
 			if k, isK := eng.ConstInt(bo.Y); isK && k == e.mode {
-				// guarded by *c.mode & bit != 0
+				// guarded by a test that the bit is set in *c.mode
 				dom := false
 				eng.Instrs(fn, func(i2 ssa.Instruction) {
-					and, ok := i2.(*ssa.BinOp)
-					if !ok || and.Op != token.AND {
+					iff, isIf := i2.(*ssa.If)
+					if !isIf {
 						return
 					}
-					if kk, isKK := eng.ConstInt(and.Y); isKK && kk == e.bit {
-						for _, r := range eng.Referrers(and) {
-							if cmp, isCmp := r.(*ssa.BinOp); isCmp {
-								for _, r2 := range eng.Referrers(cmp) {
-									if iff, isIf := r2.(*ssa.If); isIf {
-										succ := iff.Block().Succs[0]
-										if cmp.Op == token.EQL {
-											succ = iff.Block().Succs[1]
-										}
-										if succ == bo.Block() || succ.Dominates(bo.Block()) {
-											dom = true
-										}
-									}
-								}
-							}
-						}
+					_, mask, setWhenTrue, isBT := eng.BitTest(iff.Cond)
+					if !isBT || mask != e.bit {
+						return
+					}
+					succ := iff.Block().Succs[0]
+					if !setWhenTrue {
+						succ = iff.Block().Succs[1]
+					}
+					if succ == bo.Block() || succ.Dominates(bo.Block()) {
+						dom = true
 					}
 				})
 				if dom {
@@ -831,7 +855,7 @@ func r14_3(c *Ctx, rule string) {
 	for _, e := range []struct {
 		fn    string
 		floor int
-	}{{"copy.(*copier).copy", 6}, {"copy.ensureEmptyFileTarget", 1}, {"copy.copyDirectoryOnly", 1}} {
+	}{{"copy.(*copier).copy", 2}, {"copy.ensureEmptyFileTarget", 1}, {"copy.copyDirectoryOnly", 1}} { // (floors: that the rule is not vacuous, not how many tests the code happens to spell out)
 		fn := c.Fn(rule, e.fn)
 		if fn == nil {
 			continue
